@@ -2,6 +2,8 @@ package main
 
 import (
 	"fmt"
+	"strconv"
+	"strings"
 
 	sdkmath "cosmossdk.io/math"
 	sdk "github.com/cosmos/cosmos-sdk/types"
@@ -33,6 +35,99 @@ type MonC12Locks struct {
 	preFor   string
 	sawTx    bool
 	blockPre map[lockKey]sdkmath.Int
+	// The monitor's own lock ledger. Reading the locks back from the chain's records alone would
+	// make the chain the judge of what is locked (a lock the chain forgot to record would not exist
+	// for the monitor either). The rule the ledger follows is the documented one: LP shares of an
+	// oracle pool are locked for one hour from the time of the block that mints them to an account
+	// (join, pool creation, leveraged-LP open on the position's address); every other commitment is
+	// lock-free. Amounts come from the observed growth of the account's committed shares in a step.
+	model        map[lockKey][]modelLock
+	preShares    map[lockKey]sdkmath.Int // committed pool shares per account before the current step
+	blockShares  map[lockKey]sdkmath.Int
+	preOracle    map[uint64]bool
+	blockOracle  map[uint64]bool
+}
+
+type modelLock struct {
+	amount sdkmath.Int
+	unlock int64
+}
+
+const oraclePoolShareLock = 3600 // seconds; the documented lock on freshly minted oracle-pool shares
+
+func (m *MonC12Locks) shares(ctx sdk.Context) (map[lockKey]sdkmath.Int, map[uint64]bool) {
+	out := map[lockKey]sdkmath.Int{}
+	for _, c := range m.sim.N0.App.CommitmentKeeper.GetAllCommitments(ctx) {
+		for _, ct := range c.CommittedTokens {
+			if strings.HasPrefix(ct.Denom, "amm/pool/") && ct.Amount.IsPositive() {
+				out[lockKey{c.Creator, ct.Denom}] = ct.Amount
+			}
+		}
+	}
+	or := map[uint64]bool{}
+	for _, p := range m.sim.N0.App.AmmKeeper.GetAllPool(ctx) {
+		or[p.PoolId] = p.PoolParams.UseOracle
+	}
+	return out, or
+}
+
+// learn: after a step, every growth of an account's committed oracle-pool shares becomes a lock in
+// the monitor's ledger.
+func (m *MonC12Locks) learn(ctx sdk.Context, before map[lockKey]sdkmath.Int, oracleBefore map[uint64]bool, exempt map[string]bool) {
+	if m.model == nil {
+		m.model = map[lockKey][]modelLock{}
+	}
+	now := ctx.BlockTime().Unix()
+	after, oracleAfter := m.shares(ctx)
+	for k, a := range after {
+		b, ok := before[k]
+		if !ok {
+			b = sdkmath.ZeroInt()
+		}
+		if !a.GT(b) {
+			continue
+		}
+		id, err := strconv.ParseUint(strings.TrimPrefix(k.denom, "amm/pool/"), 10, 64)
+		if err != nil {
+			continue
+		}
+		was, existed := oracleBefore[id]
+		if (existed && !was) || (!existed && !oracleAfter[id]) || was != oracleAfter[id] && existed {
+			continue // not an oracle pool (or its kind was switched in this very step: not judged)
+		}
+		m.model[k] = append(m.model[k], modelLock{a.Sub(b), now + oraclePoolShareLock})
+		m.sim.Stats.Probe("lock_ledger_entry_added")
+	}
+	for acct := range exempt {
+		for k := range m.model {
+			if k.acct == acct {
+				delete(m.model, k)
+			}
+		}
+	}
+}
+
+func (m *MonC12Locks) modelLocked(now int64) map[lockKey]sdkmath.Int {
+	out := map[lockKey]sdkmath.Int{}
+	for k, ls := range m.model {
+		sum := sdkmath.ZeroInt()
+		live := ls[:0]
+		for _, l := range ls {
+			if l.unlock > now {
+				sum = sum.Add(l.amount)
+				live = append(live, l)
+			}
+		}
+		if len(live) == 0 {
+			delete(m.model, k)
+		} else {
+			m.model[k] = live
+		}
+		if sum.IsPositive() {
+			out[k] = sum
+		}
+	}
+	return out
 }
 
 func newMonC12Locks(s *Sim, c10 *MonC10) *MonC12Locks { return &MonC12Locks{sim: s, c10: c10} }
@@ -54,6 +149,17 @@ func (m *MonC12Locks) locked(ctx sdk.Context) map[lockKey]sdkmath.Int {
 			if sum.IsPositive() {
 				out[lockKey{c.Creator, ct.Denom}] = sum
 			}
+		}
+	}
+	// the larger of what the chain recorded and what the monitor's own ledger says
+	for k, v := range m.modelLocked(ctx.BlockTime().Unix()) {
+		if cur, ok := out[k]; !ok || v.GT(cur) {
+			if ok {
+				m.sim.Stats.Probe("lock_ledger_exceeds_chain_records")
+			} else {
+				m.sim.Stats.Probe("lock_ledger_has_lock_the_chain_does_not_record")
+			}
+			out[k] = v
 		}
 	}
 	return out
@@ -100,26 +206,34 @@ func (m *MonC12Locks) check(ctx sdk.Context, pre map[lockKey]sdkmath.Int, step s
 
 func (m *MonC12Locks) BeforeBlock(s *Sim, ctx sdk.Context) {
 	m.blockPre = m.locked(ctx)
+	m.blockShares, m.blockOracle = m.shares(ctx)
 	m.sawTx = false
 }
 
 func (m *MonC12Locks) PreTx(ctx sdk.Context, t *ExecTx) {
 	if !m.sawTx {
 		m.sawTx = true
-		m.check(ctx, m.blockPre, "BeginBlock(sweep)", exemptFrom(m.c10.sweepConds))
+		ex := exemptFrom(m.c10.sweepConds)
+		m.check(ctx, m.blockPre, "BeginBlock(sweep)", ex)
+		m.learn(ctx, m.blockShares, m.blockOracle, ex)
 	}
 	m.pre = m.locked(ctx)
+	m.preShares, m.preOracle = m.shares(ctx)
 }
 
 func (m *MonC12Locks) PostTx(ctx sdk.Context, t *ExecTx) {
-	m.check(ctx, m.pre, txStep(t), exemptFrom(m.c10.lpAll[t.Index]))
+	ex := exemptFrom(m.c10.lpAll[t.Index])
+	m.check(ctx, m.pre, txStep(t), ex)
+	m.learn(ctx, m.preShares, m.preOracle, ex)
 	m.pre = nil
 }
 
 func (m *MonC12Locks) AfterBlock(s *Sim, eb *ExecBlock) {
 	ctx := s.Ctx()
 	if !m.sawTx {
-		m.check(ctx, m.blockPre, "BeginBlock(sweep)", exemptFrom(m.c10.sweepConds))
+		ex := exemptFrom(m.c10.sweepConds)
+		m.check(ctx, m.blockPre, "BeginBlock(sweep)", ex)
+		m.learn(ctx, m.blockShares, m.blockOracle, ex)
 	}
 	// state invariant: active locks never exceed what they lock
 	for k, locked := range m.locked(ctx) {
